@@ -354,21 +354,25 @@ def writeMeshData (w : W) (id : Nat) (m : PMesh) : W × List (String × Nat) × 
   let w2 := writeIndices r.1 m.indices m.attrLen
   ({ w2 with written := mapInsert w2.written id (r.2, r.1.accessors.length) }, r.2, r.1.accessors.length)
 
+/-- the glTF mesh of a model: one primitive; `mode` is only written for point clouds -/
+def mkMesh (name : String) (attrs : List (String × Nat)) (idx : Nat) (mat : Option Nat) (m : PMesh) : GMesh :=
+  { name := name, prims := [{ attrs := attrs, indices := some idx, material := mat,
+                              mode := if m.topo = 1 then some 0 else none }] }
+
+/-- accessor reuse by mesh pointer (`writtenMeshData`), else write the mesh data -/
+def meshDataFor (w : W) (id : Nat) (m : PMesh) : W × List (String × Nat) × Nat :=
+  match lookup id w.written with
+  | some (attrs, idx) => (w, attrs, idx)
+  | none => writeMeshData w id m
+
 /-- `AddMesh` after the material has been resolved to an index; `none` result = the `-1` of an empty mesh -/
 def addMesh (w : W) (name : String) (id : Nat) (m : PMesh) (mat : Option Nat) : W × Option Nat :=
   if m.primitiveCount = 0 then (w, none) else
   match lookup (id, mat) w.meshIdx with
   | some i => (w, some i)
   | none =>
-    let meshIndex := w.meshes.length
-    let w0 := { w with meshIdx := mapInsert w.meshIdx (id, mat) meshIndex }
-    let r := match lookup id w0.written with
-      | some (attrs, idx) => (w0, attrs, idx)
-      | none => writeMeshData w0 id m
-    let mode : Option Nat := if m.topo = 1 then some 0 else none
-    ({ r.1 with meshes := r.1.meshes ++ [{ name := name, prims := [{ attrs := r.2.1, indices := some r.2.2,
-                                                                      material := mat, mode := mode }] }] },
-     some meshIndex)
+    let r := meshDataFor { w with meshIdx := mapInsert w.meshIdx (id, mat) w.meshes.length } id m
+    ({ r.1 with meshes := r.1.meshes ++ [mkMesh name r.2.1 r.2.2 mat m] }, some w.meshes.length)
 
 /-! ### AddTexture / AddMaterial -/
 
